@@ -111,7 +111,16 @@ def oracle_a(data, offsets):
 # -- oracle B ------------------------------------------------------------------------------------
 
 class World:
+    def _feed(self, data, addr, multicast):
+        """a datagram of the world's history (valid, built by the independent encoder): the receive path must not raise
+        for it either"""
+        try:
+            self.prot.datagram_received(data, addr, multicast)
+        except Exception as e:  # noqa: BLE001
+            self.prelude_exc = self.prelude_exc or type(e).__name__
+
     def __init__(self, warm, sid, simple=False, collecting=False, started=True):
+        self.prelude_exc = None
         self.simple = simple
         self.loop = VLoop().install()
         self.seam = RandomSeam(Choice())
@@ -149,7 +158,7 @@ class World:
         if warm and not started:
             # the sender is known with a high session id on both channels: every seed is reboot evidence
             for mc in (True, False):
-                self.prot.datagram_received(
+                self._feed(
                     refcodec.sd_message(0x7000, [("offer", sid + 1, 1, 1, 3, 0, (refcodec.v4("192.0.2.9", 30501),), ())]), SENDER, mc)
             self.loop.run_until(0.5)
         elif warm == 2:
@@ -159,15 +168,15 @@ class World:
             cfgo = ("config", (("foo", "bar"), ("k", None), ("a", "b=c")))
             offers = [("offer", sid + 1, 1, 1, 3, 0, (v4,), ()), ("offer", sid, 1, 1, 0xFFFFFF, 0, (v4,), ())]
             subs = [("subscribe", sid, 1, 1, 0xFFFFFF, 5, (v4,), ()), ("subscribe", sid, 1, 1, 0xFFFFFF, (1 << 16) | 5, (v4,), (cfgo,))]
-            self.prot.datagram_received(refcodec.sd_message(1, offers), SENDER, True)
-            self.prot.datagram_received(refcodec.sd_message(1, offers + subs), SENDER, False)
+            self._feed(refcodec.sd_message(1, offers), SENDER, True)
+            self._feed(refcodec.sd_message(1, offers + subs), SENDER, False)
             self.loop.run_until(0.5)
         elif warm:
             v4 = refcodec.v4("192.0.2.9", 30501)
             for mc, sess in ((True, 1), (False, 1)):
-                self.prot.datagram_received(
+                self._feed(
                     refcodec.sd_message(sess, [("offer", sid + 1, 1, 1, 3, 0, (v4,), ())]), SENDER, mc)
-            self.prot.datagram_received(
+            self._feed(
                 refcodec.sd_message(2, [("subscribe", sid, 1, 1, 3, 5, (v4,), ())]), SENDER, False)
             self.loop.run_until(0.5)
         self.prot.transport.sent.clear()
@@ -176,10 +185,10 @@ class World:
             # an answer to this sender is being collected; the datagram under test arrives at the very instant the
             # collection period ends, before the loop has run the period's timer
             # (the queue for this sender holds an Offer - the answer to its FindService - and a SubscribeAck)
-            self.prot.datagram_received(
+            self._feed(
                 refcodec.sd_message(3, [("find", sid, 0xFFFF, 0xFF, 3, 0xFFFFFFFF, (), ())]), SENDER, False)
             self.loop.iterate()
-            self.prot.datagram_received(
+            self._feed(
                 refcodec.sd_message(4, [("subscribe", sid, 1, 1, 3, 5, (refcodec.v4("192.0.2.9", 30501),), ())]), SENDER, False)
             self.loop.advance(2 ** -7)
 
@@ -248,6 +257,8 @@ _TWIN_CACHE = {}
 def world_result(warm, sid, data, multicast, simple=False, collecting=False, started=True):
     w = World(warm, sid, simple, collecting, started)
     try:
+        if w.prelude_exc:
+            return w.prelude_exc + "-in-the-history-of-the-world", w.observe(), [], []
         if data:
             exc = w.deliver(data, multicast)
         else:
